@@ -60,36 +60,91 @@ Section SchedProofs.
   Variable keq : K -> K -> bool.
   Notation opk := (@opk R K).
 
-  (** chains without state: nothing, one filter, one projection *)
-  Inductive stateless : list opk -> (list R -> list R) -> Prop :=
-  | sl_nil : stateless [] (fun rows => rows)
-  | sl_filter : forall p, stateless [OFilter p] (filter p)
-  | sl_project : forall f, stateless [OProject f] (map f).
+  (** chains without state: any number of filters and projections *)
+  Definition stateless (ks : list opk) : Prop := forallb (@stateless_op R K) ks = true.
+  Notation chain_spec := (chain_spec keq).
 
-  Lemma stateless_app : forall ks g, stateless ks g -> forall a b, g (a ++ b) = g a ++ g b.
-  Proof. intros ks g H a b. destruct H; [reflexivity|apply filter_app|apply map_app]. Qed.
-  Lemma stateless_nil : forall ks g, stateless ks g -> g [] = [].
-  Proof. intros ks g H. destruct H; reflexivity. Qed.
-  Lemma stateless_concat : forall ks g, stateless ks g -> forall ls, g (concat ls) = concat (map g ls).
+  Lemma stateless_cons : forall (k : opk) (ks : list opk), stateless (k :: ks) -> stateless_op k = true /\ stateless ks.
+  Proof. intros k ks H. unfold stateless in *. cbn in H. apply andb_true_iff in H. exact H. Qed.
+
+  Lemma chain_spec_cons : forall (k : opk) (ks : list opk) (rows : list R), chain_spec (k :: ks) rows = chain_spec ks (spec keq k rows).
+  Proof. reflexivity. Qed.
+
+  Lemma stateless_spec_app : forall (k : opk), stateless_op k = true -> forall (a b : list R), spec keq k (a ++ b) = spec keq k a ++ spec keq k b.
+  Proof. intros k H a b. destruct k; try discriminate; cbn; [apply filter_app|apply map_app]. Qed.
+  Lemma stateless_spec_nil : forall (k : opk), stateless_op k = true -> spec keq k [] = [].
+  Proof. intros k H. destruct k; try discriminate; reflexivity. Qed.
+
+  Lemma stateless_app : forall ks, stateless ks -> forall a b, chain_spec ks (a ++ b) = chain_spec ks a ++ chain_spec ks b.
   Proof.
-    intros ks g H. induction ls as [|l ls IH]; cbn; [eapply stateless_nil; eauto|].
-    rewrite (stateless_app ks g H), IH. reflexivity.
+    induction ks as [|k ks IH]; intros H a b; [reflexivity|].
+    apply stateless_cons in H. destruct H as [Hk Hks].
+    rewrite !chain_spec_cons, stateless_spec_app by exact Hk. apply IH. exact Hks.
+  Qed.
+  Lemma stateless_nil : forall ks, stateless ks -> chain_spec ks [] = [].
+  Proof.
+    induction ks as [|k ks IH]; intro H; [reflexivity|].
+    apply stateless_cons in H. destruct H as [Hk Hks].
+    rewrite chain_spec_cons, stateless_spec_nil by exact Hk. apply IH. exact Hks.
+  Qed.
+  Lemma stateless_concat : forall ks, stateless ks -> forall ls, chain_spec ks (concat ls) = concat (map (chain_spec ks) ls).
+  Proof.
+    intros ks H. induction ls as [|l ls IH]; cbn [concat map]; [apply stateless_nil; exact H|].
+    rewrite (stateless_app ks H), IH. reflexivity.
   Qed.
 
-  Lemma push_all_stateless : forall ks g, stateless ks g -> forall cs ss,
-    concat (snd (push_all keq ks ss cs)) = g (concat cs)
+  Lemma stateless_push : forall (k : opk) s c, stateless_op k = true -> push keq k s c = (s, keep (spec keq k c), true).
+  Proof. intros k s c H. destruct k; try discriminate; reflexivity. Qed.
+
+  Lemma keep_nil_iff : forall (c : list R), keep c = [] -> c = [].
+  Proof. intros [|x c] H; [reflexivity|discriminate]. Qed.
+
+  (** one chunk through a stateless chain: the chunk of the specification (dropped when empty), continue *)
+  Lemma push_through_stateless : forall ks, stateless ks -> forall ss c,
+    exists ss', push_through keq ks ss c = (ss', keep (chain_spec ks c), true).
+  Proof.
+    induction ks as [|k ks IH]; intros H ss c.
+    - exists []. reflexivity.
+    - apply stateless_cons in H. destruct H as [Hk Hks].
+      cbn [push_through]. rewrite (stateless_push k (hd_st ss) c Hk). rewrite chain_spec_cons.
+      destruct ks as [|k2 ks'].
+      + eexists. reflexivity.
+      + cbn [negb orb].
+        destruct (spec keq k c) as [|x t] eqn:E.
+        * cbn [keep]. rewrite (stateless_nil (k2 :: ks') Hks). eexists. reflexivity.
+        * cbn [keep concat]. rewrite app_nil_r.
+          destruct (IH Hks (tl ss) (x :: t)) as [ss' E2]. rewrite E2. eexists. reflexivity.
+  Qed.
+
+  Lemma push_all_stateless_out : forall ks, stateless ks -> forall cs ss,
+    concat (snd (push_all keq ks ss cs)) = chain_spec ks (concat cs).
+  Proof.
+    intros ks H. induction cs as [|c r IH]; intro ss.
+    - cbn. symmetry. apply stateless_nil. exact H.
+    - cbn [push_all concat]. rewrite (stateless_app ks H).
+      destruct (push_through_stateless ks H ss c) as [ss' E]. rewrite E.
+      specialize (IH ss'). destruct (push_all keq ks ss' r) as [ss'' o2]. cbn [snd] in *.
+      rewrite concat_app, concat_keep, IH. reflexivity.
+  Qed.
+
+  Lemma push_all_nil : forall (ks : list opk) ss, push_all keq ks ss [] = (ss, []).
+  Proof. reflexivity. Qed.
+
+  Lemma finalize_all_stateless : forall ks, stateless ks -> forall ss, finalize_all keq ks ss = [].
+  Proof.
+    induction ks as [|k ks IH]; intros H ss; [reflexivity|].
+    apply stateless_cons in H. destruct H as [Hk Hks].
+    cbn [finalize_all].
+    assert (F : finish k (hd_st ss) = []) by (destruct k; try discriminate; reflexivity).
+    rewrite F. destruct ks as [|k2 ks']; [reflexivity|].
+    rewrite push_all_nil. cbn [app]. apply IH. exact Hks.
+  Qed.
+
+  Lemma push_all_stateless : forall ks, stateless ks -> forall cs ss,
+    concat (snd (push_all keq ks ss cs)) = chain_spec ks (concat cs)
     /\ finalize_all keq ks (fst (push_all keq ks ss cs)) = [].
   Proof.
-    intros ks g H. induction cs as [|c r IH]; intro ss.
-    - cbn. split; [symmetry; eapply stateless_nil; eauto|]. destruct H; reflexivity.
-    - cbn [push_all concat]. rewrite (stateless_app ks g H).
-      destruct H; cbn [push_through Push.push hd_st].
-      + destruct (IH []) as [I1 I2]. destruct (push_all keq [] [] r) as [ss'' o2]. cbn [fst snd] in *.
-        rewrite concat_app, concat_keep, I1. auto.
-      + destruct (IH [hd_st ss]) as [I1 I2]. destruct (push_all keq [OFilter p] [hd_st ss] r) as [ss'' o2].
-        cbn [fst snd] in *. rewrite concat_app, concat_keep, I1. auto.
-      + destruct (IH [hd_st ss]) as [I1 I2]. destruct (push_all keq [OProject f] [hd_st ss] r) as [ss'' o2].
-        cbn [fst snd] in *. rewrite concat_app, concat_keep, I1. auto.
+    intros ks H cs ss. split; [apply push_all_stateless_out; exact H|apply finalize_all_stateless; exact H].
   Qed.
 
   Lemma worker_rows : forall csize (rows : list R) ms mine, 0 < csize ->
@@ -100,16 +155,16 @@ Section SchedProofs.
     rewrite concat_app, IH. unfold morsel_chunks. rewrite chunks_of_concat by exact Hc. reflexivity.
   Qed.
 
-  Lemma worker_stateless : forall ks g, stateless ks g -> forall csize rows ms mine, 0 < csize ->
+  Lemma worker_stateless : forall ks, stateless ks -> forall csize rows ms mine, 0 < csize ->
     concat (worker_run keq ks csize rows ms mine)
-    = concat (map (fun i => g (slice rows (nth i ms dummy_morsel))) mine).
+    = concat (map (fun i => chain_spec ks (slice rows (nth i ms dummy_morsel))) mine).
   Proof.
-    intros ks g H csize rows ms mine Hc. unfold worker_run.
+    intros ks H csize rows ms mine Hc. unfold worker_run.
     set (cs := concat (map (fun i => morsel_chunks csize rows (nth i ms dummy_morsel)) mine)).
-    destruct (push_all_stateless ks g H cs (init_chain ks)) as [I1 I2].
+    destruct (push_all_stateless ks H cs (init_chain ks)) as [I1 I2].
     destruct (push_all keq ks (init_chain ks) cs) as [ss o]. cbn [fst snd] in *.
     rewrite I2, app_nil_r, I1. unfold cs. rewrite worker_rows by exact Hc.
-    rewrite (stateless_concat ks g H), map_map. reflexivity.
+    rewrite (stateless_concat ks H), map_map. reflexivity.
   Qed.
 
   Lemma map_nth_seq_m : forall (ms : list morsel), map (fun i => nth i ms dummy_morsel) (seq 0 (length ms)) = ms.
@@ -122,21 +177,34 @@ Section SchedProofs.
   Qed.
 
   (** any schedule, any number of workers: the output bag of a stateless chain is the sequential result *)
-  Theorem schedule_independent_l : forall ks g, stateless ks g ->
+  Theorem schedule_independent_l : forall ks, forallb (@stateless_op R K) ks = true ->
     forall csize (rows : list R) ms sch, 0 < csize ->
     concat (map (slice rows) ms) = rows ->            (* the morsels cover the rows: morsels_cover_rows *)
     valid_schedule (length ms) sch ->
-    Permutation (concat (parallel_run keq ks csize rows ms sch)) (g rows).
+    Permutation (concat (parallel_run keq ks csize rows ms sch)) (chain_spec ks rows).
   Proof.
-    intros ks g H csize rows ms sch Hc Hcov Hv. unfold parallel_run.
+    intros ks H csize rows ms sch Hc Hcov Hv. unfold parallel_run.
     rewrite concat_concat', map_map.
-    rewrite (map_ext _ (fun w => concat (map (fun i => g (slice rows (nth i ms dummy_morsel))) w)))
+    rewrite (map_ext _ (fun w => concat (map (fun i => chain_spec ks (slice rows (nth i ms dummy_morsel))) w)))
       by (intro w; apply worker_stateless; auto).
-    eapply perm_trans; [apply (schedule_perm_l (fun i => g (slice rows (nth i ms dummy_morsel))) (length ms) sch Hv)|].
-    rewrite <- (map_map (fun i => slice rows (nth i ms dummy_morsel)) g).
+    eapply perm_trans; [apply (schedule_perm_l (fun i => chain_spec ks (slice rows (nth i ms dummy_morsel))) (length ms) sch Hv)|].
+    rewrite <- (map_map (fun i => slice rows (nth i ms dummy_morsel)) (chain_spec ks)).
     rewrite <- (map_map (fun i => nth i ms dummy_morsel) (slice rows)).
     rewrite map_nth_seq_m.
-    rewrite <- (stateless_concat ks g H), Hcov. reflexivity.
+    rewrite <- (stateless_concat ks H), Hcov. reflexivity.
+  Qed.
+
+  (** the sequential run (one worker, morsels in order) gives the specification exactly, in order *)
+  Theorem sequential_run_spec_l : forall ks, forallb (@stateless_op R K) ks = true ->
+    forall csize (rows : list R) ms, 0 < csize -> concat (map (slice rows) ms) = rows ->
+    concat (sequential_run keq ks csize rows ms) = chain_spec ks rows.
+  Proof.
+    intros ks H csize rows ms Hc Hcov. unfold sequential_run.
+    rewrite (worker_stateless ks H) by exact Hc.
+    rewrite <- (map_map (fun i => slice rows (nth i ms dummy_morsel)) (chain_spec ks)).
+    rewrite <- (map_map (fun i => nth i ms dummy_morsel) (slice rows)).
+    rewrite map_nth_seq_m.
+    rewrite <- (stateless_concat ks H), Hcov. reflexivity.
   Qed.
 
   (** *** per-worker sort, then the k-way merge of the workers' runs *)
